@@ -100,3 +100,12 @@ CHECKS["C01"] = _c(
     "Trusted: aws-sdk-s3 as the encoder of well-formed requests; the harness's reading of the smithy http traits, used only conservatively (a request 'denotes nothing' only if every candidate operation lacks a required literal query key). Requests the SDK refuses client-side are counted, not judged.",
     "DESIGN.md 3/C01",
 )
+
+CHECKS["C02"] = _c(
+    "exploration",
+    "runtime monitoring: generated typed inputs are encoded by aws-sdk-s3 (via s3s_aws::Proxy), decoded by the service under test and recorded by a backend generated from the current S3 trait; member-wise DTO comparison with wire-aware excuses; plus raw single-mutation reject cases",
+    "harness (looped client/adapter/backend engine + raw request driver)",
+    "For every operation and every member of its input structure (systematic: each optional member alone; random: absent / all / subsets) values drawn from the alphabet of the member's wire binding (taken from the smithy model) are sent by the official SDK and must arrive at the backend equal, member by member, including metadata maps, nested XML payloads and streamed bodies, in path-style, virtual-hosted, authenticated and two-adapters-in-a-row configurations; every single-valued header / query / metadata member duplicated, every numeric / boolean / timestamp member ill-typed, a required payload emptied and a mis-declared Content-Length must yield a 4xx S3 error and no backend call. Held on the executions observed.",
+    "Trusted: aws-sdk-s3's encoder; DTO PartialEq; the harness's reading of the model bindings (used for alphabets and for excusing members the SDK adds itself, only when the tapped request carries them). Members the SDK computes or rewrites are not generated.",
+    "DESIGN.md 3/C02",
+)
